@@ -154,40 +154,50 @@ theorem C16_raw_secret_holders_not_logged :
       rawHolderNotLogged logSites [.i_clone, .i_to_owned, .i_as_ref, .i_borrow, .i_deref] r = true := by
   decide +kernel
 
-/-! ## emission model of the signature check -/
+/-! ## emission model of the signature check
 
-/-- the full statement of the design: what is emitted depends on the secret table only through the
-    verdict.  FALSE of the model (and of the code): `S3V.Findings.C16.C16_counterexample_mismatch_log`. -/
-def C16_noninterference_full : Prop :=
+`check c body v lookup r` carries a variant switch `v` (`logsComputedSig`): `true` is the code as it stands — on a
+mismatch it records, at DEBUG, the MAC it computed — `false` the repaired form that records only what the client
+sent.  The statements are proved for both settings; the driver detects which one the implementation exhibits. -/
+
+/-- the full statement of the design: what is emitted depends on the secret table only through the verdict.
+    For `v = true` (the code as it stands) it is FALSE of the model:
+    `S3V.Findings.C16.C16_counterexample_mismatch_log`. -/
+def C16_noninterference_full (v : Bool) : Prop :=
   ∀ (c : Crypto) (l₁ l₂ : Bytes → Option Bytes) (r : AuthReq),
-    (check c secretKeyDebug l₁ r).1 = (check c secretKeyDebug l₂ r).1 →
-    (check c secretKeyDebug l₁ r).2 = (check c secretKeyDebug l₂ r).2
+    (check c secretKeyDebug v l₁ r).1 = (check c secretKeyDebug v l₂ r).1 →
+    (check c secretKeyDebug v l₁ r).2 = (check c secretKeyDebug v l₂ r).2
+
+/-- **[model]** the full statement holds for the repaired variant -/
+theorem C16_noninterference_repaired : C16_noninterference_full false :=
+  fun c l₁ l₂ r hv => check_noninterference_repaired c secretKeyDebug C16_secret_render_independent.1 l₁ l₂ r hv
 
 /-- **[model]** non-interference outside the one excluded field (`isComputedSigField`: field `signature`
-    of the DEBUG record `signature mismatch`, which holds the MAC the server computed): for every MAC, every
-    two secret tables and every request, equal verdicts give equal emissions — log records, error code and
-    message of the response, `Debug` rendering of the credentials handed on -/
-theorem C16_noninterference_partial (c : Crypto) (l₁ l₂ : Bytes → Option Bytes) (r : AuthReq)
-    (hv : (check c secretKeyDebug l₁ r).1 = (check c secretKeyDebug l₂ r).1) :
-    (check c secretKeyDebug l₁ r).2.map maskEmission = (check c secretKeyDebug l₂ r).2.map maskEmission :=
-  check_noninterference_masked c secretKeyDebug C16_secret_render_independent.1 l₁ l₂ r hv
+    of the DEBUG record `signature mismatch`, which holds the MAC the server computed), for both variants: for
+    every MAC, every two secret tables and every request, equal verdicts give equal emissions — log records,
+    error code and message of the response, `Debug` rendering of the credentials handed on -/
+theorem C16_noninterference_partial (v : Bool) (c : Crypto) (l₁ l₂ : Bytes → Option Bytes) (r : AuthReq)
+    (hv : (check c secretKeyDebug v l₁ r).1 = (check c secretKeyDebug v l₂ r).1) :
+    (check c secretKeyDebug v l₁ r).2.map maskEmission = (check c secretKeyDebug v l₂ r).2.map maskEmission :=
+  check_noninterference_masked c secretKeyDebug C16_secret_render_independent.1 v l₁ l₂ r hv
 
-/-- **[model]** full non-interference (nothing masked) for everything except DEBUG/TRACE records: the
-    response (error code, message), the credentials' `Debug` rendering and every record at INFO or above -/
-theorem C16_noninterference_above_debug (c : Crypto) (l₁ l₂ : Bytes → Option Bytes) (r : AuthReq)
-    (hv : (check c secretKeyDebug l₁ r).1 = (check c secretKeyDebug l₂ r).1) :
-    (check c secretKeyDebug l₁ r).2.filter aboveDebug = (check c secretKeyDebug l₂ r).2.filter aboveDebug :=
-  check_noninterference_above_debug c secretKeyDebug C16_secret_render_independent.1 l₁ l₂ r hv
+/-- **[model]** full non-interference (nothing masked), for both variants, for everything except DEBUG/TRACE
+    records: the response (error code, message), the credentials' `Debug` rendering and every record at INFO or
+    above (the ERROR event of `#[instrument(err)]` on `prepare` included) -/
+theorem C16_noninterference_above_debug (v : Bool) (c : Crypto) (l₁ l₂ : Bytes → Option Bytes) (r : AuthReq)
+    (hv : (check c secretKeyDebug v l₁ r).1 = (check c secretKeyDebug v l₂ r).1) :
+    (check c secretKeyDebug v l₁ r).2.filter aboveDebug = (check c secretKeyDebug v l₂ r).2.filter aboveDebug :=
+  check_noninterference_above_debug c secretKeyDebug C16_secret_render_independent.1 v l₁ l₂ r hv
 
 /-- **[model]** the secret enters the emissions only through the MAC: there is one function `g`, fixed
     before crypto, table and request are chosen, such that everything emitted is `g` of the request and of the
     signature computed for it (`computeSig` = the HMAC chain of `calculate_signature`) -/
-theorem C16_emissions_factor_through_mac :
+theorem C16_emissions_factor_through_mac (v : Bool) :
     ∃ g : AuthReq → Option Bytes → List Emission,
       ∀ (c : Crypto) (l : Bytes → Option Bytes) (r : AuthReq),
-        (check c secretKeyDebug l r).2 = g r ((l r.accessKey).map fun s => computeSig c s r) :=
-  ⟨emittedFromSig secretKeyDebug, fun c l r =>
-    check_factors c secretKeyDebug C16_secret_render_independent.1 l r⟩
+        (check c secretKeyDebug v l r).2 = g r ((l r.accessKey).map fun s => computeSig c s r) :=
+  ⟨emittedFromSig secretKeyDebug v, fun c l r =>
+    check_factors c secretKeyDebug C16_secret_render_independent.1 v l r⟩
 
 /-! non-vacuity -/
 
@@ -207,7 +217,12 @@ example : renderDebug (.tuple [83] [.inner]) [97] ≠ renderDebug (.tuple [83] [
 /-- both verdicts occur in the emission model (accepted when the client's signature is the MAC, rejected otherwise) -/
 example (c : Crypto) (l : Bytes → Option Bytes) (r : AuthReq) (s : Bytes) (hp : r.pre = none)
     (hl : l r.accessKey = some s) (hs : r.provided = computeSig c s r) :
-    (check c secretKeyDebug l r).1 = .accept r.accessKey := by
+    (check c secretKeyDebug true l r).1 = .accept r.accessKey := by
   simp [check, hp, hl, hs]
+/-- `C16_renderings_do_not_disclose` applies to 40-byte secrets and to encoders that do not shrink -/
+example : 35 < (List.replicate 40 (65 : UInt8)).length ∧ (∀ b : Bytes, b.length ≤ (b ++ b).length) := by
+  constructor
+  · decide
+  · intro b; simp
 
 end S3V.C16
